@@ -16,6 +16,7 @@ import (
 	"github.com/godaddy/asherah/go/securememory/memguard"
 	"github.com/godaddy/asherah/go/securememory/protectedmemory"
 
+	"verif/harness/fakes/awskms"
 	"verif/harness/probe"
 )
 
@@ -158,6 +159,9 @@ type World struct {
 	// plug-in, Mem mirrors every accepted insert.
 	Backend string
 	plug    *plug
+	// Cloud / AltKMS are set by UseAWSKMS: the fake regional cloud and the KMS client of a process in another region.
+	Cloud  *awskms.Cloud
+	AltKMS *probe.KMS
 
 	shadow map[string]map[int64]*appencryption.EnvelopeKeyRecord
 	flips  []Flip
